@@ -54,7 +54,7 @@ def stage_error_map(ctx, f, g, name, tag, depth=0):
         culprit = None
         variant = None
         for e in p.events:
-            if e.kind == "call" and e.depth == 0 and e.ret is not None and sym.contains(last[0], lambda x: x == e.ret):
+            if e.kind == "call" and (e.depth == 0 or e.fn.startswith(b.key + "::{closure")) and e.ret is not None and sym.contains(last[0], lambda x: x == e.ret):
                 if g.is_stage(e.name) or g.validator_role(e.name) is not None:
                     culprit = e
         if ev[0] == "enum":
